@@ -1,5 +1,6 @@
 import LP.Props.C14
 import LP.Props.C14Eval
+import LP.Props.C14PowMod
 #print axioms LP.ounion_mem
 #print axioms LP.ounion_sorted
 #print axioms LP.ounion_flags
@@ -20,3 +21,4 @@ import LP.Props.C14Eval
 #print axioms LP.FSI.C14_pick_partial
 #print axioms LP.FPoly.C14_eval_spec
 #print axioms LP.FPoly.C14_eval_zero_iff
+#print axioms LP.FPoly.fpPowMod_spec
